@@ -6,21 +6,23 @@ From LLGoV Require Import C05.Model C05.StrModel C05.Proofs C05.StrProofs.
 Local Open Scope Z_scope.
 
 (* ------------------------------------------------------------------------- *)
-(* append.  For every element size es > 0, every well-formed slice s and every
+(* append.  [slice_append = slice_append_gen true] is the code that exists;
+   [slice_append_gen false] is SliceAppend before the two repairs (zero-size
+   elements returned unchanged; memcpy instead of memmove).
+   For every element size es > 0, every well-formed slice s and every
    source of num elements (bytes in the caller's frame, or memory that may lie
    inside s's own backing array): the result has len(s)+num elements; its
    contents are the old contents of s followed by the source bytes AS THEY
-   WERE BEFORE THE CALL (so an aliasing source is handled); when the capacity
-   suffices the result has the same data pointer and capacity, the heap gets no
-   new block and no byte outside the appended range changes; when it does not,
-   the result lives in a block that did not exist before (id = length h) with
-   cap >= len; no other existing block is modified either way.
-   Memory model: memcpy = copy through a temporary (see append_memcpy_contract
-   below for where the C contract of memcpy is broken). *)
-Theorem append_spec : forall es h s src num h' r ovl,
+   WERE BEFORE THE CALL (so an aliasing source is handled: the copy is a
+   memmove); when the capacity suffices the result has the same data pointer
+   and capacity, the heap gets no new block and no byte outside the appended
+   range changes; when it does not, the result lives in a block that did not
+   exist before (id = length h) with cap >= len; no other existing block is
+   modified either way. *)
+Theorem append_spec : forall fixed es h s src num h' r ovl,
   0 < es -> 0 <= num -> slen s + num < 2 ^ 63 -> scap s < 2 ^ 63 ->
   wf_slice es h s -> src_ok h src (num * es) ->
-  slice_append es h s src num = (h', r, ovl) ->
+  slice_append_gen fixed es h s src num = (h', r, ovl) ->
   slen r = slen s + num
   /\ rd h' (sdata r) (slen r * es) = rd h (sdata s) (slen s * es) ++ src_read h src (num * es)
   /\ wf_slice es h' r
@@ -42,36 +44,65 @@ Example append_nontrivial :
   let s := mkS (mkP 1 0) 2 8 in
   wf_slice 1 h s /\ src_ok h (SrcPtr (mkP 1 1)) (2 * 1)
   /\ slice_append 1 h s (SrcPtr (mkP 1 1)) 2
-     = ([[]; [1; 2; 2; 3; 0; 0; 0; 0]], mkS (mkP 1 0) 4 8, true).
+     = ([[]; [1; 2; 2; 3; 0; 0; 0; 0]], mkS (mkP 1 0) 4 8, false).
 Proof. unfold wf_slice, src_ok, fits. cbn. intuition lia. Qed.
 
-(* element size 0: the property fails.  SliceAppend returns its argument
-   unchanged, so the length does not grow (finding F2; the harness replays this
-   witness on the real code: append of one struct{} to an empty slice) *)
-Theorem append_zero_size_refuted :
+(* element size 0 (the code that exists): the length grows by num, cap >= len,
+   the result is well formed, no existing block is touched; when the capacity
+   suffices nothing is allocated and pointer and capacity are kept; when it
+   does not, the result is not the nil slice *)
+Theorem append_zero_size_spec : forall h s src num h' r ovl,
+  0 <= num -> wf_slice 0 h s ->
+  slice_append 0 h s src num = (h', r, ovl) ->
+  slen r = slen s + num
+  /\ slen r <= scap r
+  /\ wf_slice 0 h' r
+  /\ ovl = false
+  /\ (forall id, (id < length h)%nat -> blk h' id = blk h id)
+  /\ (slen s + num <= scap s -> h' = h /\ sdata r = sdata s /\ scap r = scap s)
+  /\ (scap s < slen s + num -> is_nil (sdata r) = false).
+Proof. exact append_zero_size_lemma. Qed.
+Print Assumptions append_zero_size_spec.
+
+Example append_zero_size_nontrivial :   (* append([]struct{}(nil), struct{}{}) *)
+  wf_slice 0 heap0 nils
+  /\ slice_append 0 heap0 nils (SrcBytes []) 1 = ([[]; []], mkS (mkP 1 0) 1 1, false).
+Proof. unfold wf_slice, fits. cbn. intuition lia. Qed.
+
+(* before the repair (fixed = false) the property failed for element size 0:
+   SliceAppend returned its argument unchanged, so the length did not grow
+   (finding F2; the harness still replays this witness on the real code) *)
+Theorem append_zero_size_unfixed_refuted :
   exists h s src num, wf_slice 0 h s /\ src_ok h src (num * 0) /\ 0 < num /\
-    slen (snd (fst (slice_append 0 h s src num))) <> slen s + num.
+    slen (snd (fst (slice_append_gen false 0 h s src num))) <> slen s + num.
 Proof. exact append_zero_size_witness. Qed.
-Print Assumptions append_zero_size_refuted.
+Print Assumptions append_zero_size_unfixed_refuted.
 
-Theorem append_zero_size_returns_argument : forall h s src num,
-  slice_append 0 h s src num = (h, s, false).
+Theorem append_zero_size_unfixed_returns_argument : forall h s src num,
+  slice_append_gen false 0 h s src num = (h, s, false).
 Proof. exact append_zero_size_same. Qed.
-Print Assumptions append_zero_size_returns_argument.
+Print Assumptions append_zero_size_unfixed_returns_argument.
 
-(* memcpy contract (C: the ranges must not overlap): kept whenever the slice
-   grows, but there is a well-formed in-place append that breaks it *)
-Theorem append_memcpy_contract_when_growing : forall es h s src num,
-  0 < es -> wf_slice es h s -> src_ok h src (num * es) -> scap s < slen s + num ->
+(* memcpy contract (C: the ranges must not overlap).  The code that exists
+   copies with memmove, so there is no contract to break; before the repair the
+   contract was kept whenever the slice grew, but there was a well-formed
+   in-place append that broke it *)
+Theorem append_overlap_no_contract : forall es h s src num,
   snd (slice_append es h s src num) = false.
+Proof. exact append_fixed_no_contract. Qed.
+Print Assumptions append_overlap_no_contract.
+
+Theorem append_memcpy_contract_when_growing : forall fixed es h s src num,
+  0 < es -> wf_slice es h s -> src_ok h src (num * es) -> scap s < slen s + num ->
+  snd (slice_append_gen fixed es h s src num) = false.
 Proof. exact append_grow_no_overlap. Qed.
 Print Assumptions append_memcpy_contract_when_growing.
 
-Theorem append_memcpy_contract_refuted :
+Theorem append_memcpy_contract_unfixed_refuted :
   exists es h s src num, 0 < es /\ wf_slice es h s /\ src_ok h src (num * es) /\
-    slen s + num <= scap s /\ snd (slice_append es h s src num) = true.
+    slen s + num <= scap s /\ snd (slice_append_gen false es h s src num) = true.
 Proof. exact append_overlap_witness. Qed.
-Print Assumptions append_memcpy_contract_refuted.
+Print Assumptions append_memcpy_contract_unfixed_refuted.
 
 (* growth: the new capacity holds the request, for every request below 2^63
    (wrap-around of the 64-bit arithmetic included) *)
